@@ -134,7 +134,7 @@ fn expected(call: &Call) -> Vec<u8> {
 }
 
 pub const D4_FAULTS: &[&str] = &["sink_capacity_exhausted_zero", "sink_capacity_exhausted_error", "sink_short_write", "sink_interrupted", "slice_too_small"];
-pub const D4_PROBES: &[&str] = &["hundreds_of_header_lines", "header_value_over_64k", "write_headers", "http_headers", "simple_redirect", "custom_reason", "zero_headers", "empty_name_or_value", "capacity_exact"];
+pub const D4_PROBES: &[&str] = &["hundreds_of_header_lines", "header_value_over_64k", "write_headers", "http_headers", "simple_redirect", "local_redirect_with_fragment", "custom_reason", "zero_headers", "empty_name_or_value", "capacity_exact"];
 
 pub fn c20(cx: &mut Ctx) -> VResult {
     cx.declare(D4_FAULTS, D4_PROBES);
@@ -181,11 +181,21 @@ pub fn c20(cx: &mut Ctx) -> VResult {
                 Call::Http { code, headers }
             }
             _ => {
-                let l = cx.ch.weighted(&[1, 5, 2]);
+                let l = cx.ch.weighted(&[1, 4, 2, 3]);
                 let loc: String = match l {
                     0 => String::new(),
                     1 => format!("/{}?q={}", gen_token(cx, 0, 20), gen_token(cx, 0, 8)),
-                    _ => format!("https://{}.example/{}\u{e9}#frag", gen_token(cx, 6, 6), gen_token(cx, 0, 200)),
+                    2 => format!("https://{}.example/{}\u{e9}#frag", gen_token(cx, 6, 6), gen_token(cx, 0, 200)),
+                    _ => {
+                        // any mix of URL punctuation, in any position (local paths with fragments, "//host", lone '#', ...)
+                        const AB: &[u8] = b"/#?&=%.:@;+ -_~!$'()*,[]ab0Z";
+                        let n = cx.ch.range(0, 40);
+                        let mut s = String::new();
+                        if cx.ch.chance(2, 3) { s.push('/'); }
+                        for _ in 0..n { s.push(AB[cx.ch.pick(AB.len() as u32) as usize] as char); }
+                        if s.starts_with('/') && s.contains('#') { cx.probe("local_redirect_with_fragment"); }
+                        s
+                    }
                 };
                 cx.probe("simple_redirect");
                 Call::Redirect { loc }
